@@ -82,6 +82,9 @@ func identitySlice(v ssa.Value, strict bool) (bool, string) {
 				}
 				identityDepth--
 				if allID {
+					if !returnsAParam(cf) {
+						return false // what it returns comes out of its receiver (a container), not out of its arguments
+					}
 					return true // continue through the call's arguments
 				}
 			}
@@ -162,6 +165,9 @@ var rR9 = RuleRef{Name: "R9", Doc: "key/argument identity: the key operand of ev
 							if !isText {
 								continue
 							}
+							if j < len(cf.Params) && modeParam(cf.Params[j]) {
+								continue // a selector ("left"/"right") that the method only compares with constants: not payload
+							}
 							nVal++
 							good, why := identitySlice(args[j], false)
 							if nb := nilBaseAppend(args[j]); good && nb != "" {
@@ -186,3 +192,56 @@ var rR9 = RuleRef{Name: "R9", Doc: "key/argument identity: the key operand of ev
 	c.Min("R9_key_operands", 300)
 	c.Min("R9_value_operands", 60)
 }}
+
+
+// modeParam: the parameter is only ever compared with constants (a direction or mode selector, never stored or emitted).
+func modeParam(p *ssa.Parameter) bool {
+	if p.Referrers() == nil || len(*p.Referrers()) == 0 {
+		return false
+	}
+	for _, r := range *p.Referrers() {
+		switch x := r.(type) {
+		case *ssa.DebugRef:
+		case *ssa.BinOp:
+			if x.Op != token.EQL && x.Op != token.NEQ {
+				return false
+			}
+			_, cx := x.X.(*ssa.Const)
+			_, cy := x.Y.(*ssa.Const)
+			if !cx && !cy {
+				return false
+			}
+		default:
+			return false
+		}
+	}
+	return true
+}
+
+
+// returnsAParam: some returned value of fn derives from one of its non-receiver parameters.
+func returnsAParam(fn *ssa.Function) bool {
+	found := false
+	for _, b := range fn.Blocks {
+		for _, in := range b.Instrs {
+			ret, ok := in.(*ssa.Return)
+			if !ok {
+				continue
+			}
+			for _, rv := range ret.Results {
+				backslice(rv, func(v ssa.Value) bool {
+					if p, ok := v.(*ssa.Parameter); ok {
+						if !(fn.Signature.Recv() != nil && len(fn.Params) > 0 && p == fn.Params[0]) && !modeParam(p) {
+							found = true
+						}
+					}
+					if _, isCall := v.(*ssa.Call); isCall {
+						return false
+					}
+					return !found
+				})
+			}
+		}
+	}
+	return found
+}
